@@ -314,6 +314,9 @@ def _is_iterable_of_pairs(val: t.Any) -> tuple[bool, t.Any]:
     cls = val.__class__
     if not inspection.isiterabletype(cls) or inspection.ismappingtype(cls):
         return False, val
+    # A named tuple is a record: its members are field values, never (key, value) pairs.
+    if inspection.isnamedtuple(cls):
+        return False, val
 
     if inspection.issequencetype(cls):
         peek = next(iter(val), ())
